@@ -34,6 +34,8 @@ var (
 	c17PostSkel string
 	c17LogSkel  string
 	c17SkelErr  string
+	// c17EmptyOf maps the skeleton of a page to the skeleton the same page has when there is no RelayState
+	c17EmptyOf = map[string]string{}
 )
 
 // c17Skeletons renders both templates with neutral sentinels once and checks their shape.
@@ -61,8 +63,11 @@ func c17Skeletons() {
 					scripts++
 				}
 			}
-			if forms != 1 || len(inputs) != 2 || !inputs["RelayState"] || !inputs["SAMLResponse"] || scripts != 0 {
-				return "", fmt.Sprintf("neutral rendering has %d forms, hidden inputs %v, %d script elements", forms, inputs, scripts)
+			// the template may bring script of its own (auto-submit); what matters is that the hostile renderings have
+			// the same structure as this one. A template may leave the RelayState field out when there is none.
+			delete(inputs, "RelayState")
+			if forms != 1 || len(inputs) != 1 || !inputs["SAMLResponse"] {
+				return "", fmt.Sprintf("neutral rendering has %d forms, hidden inputs besides RelayState %v, %d script elements", forms, inputs, scripts)
 			}
 			return reply.Skeleton(d.Tokens, c17Dynamic), ""
 		}
@@ -80,6 +85,20 @@ func c17Skeletons() {
 		if c17SkelErr != "" {
 			return
 		}
+		// the same page without a RelayState
+		sc0 := randScenario(rng, "MKneutral0", false)
+		sc0.Host = ""
+		sc0.S.Binding, sc0.S.ACS, sc0.S.RelayState = spsim.BindPost, "https://neutral.example/acs", ""
+		c0 := sc0.callback(sc0.build())
+		if c0.D.Kind != "form" {
+			c17SkelErr = "neutral callback rendering without RelayState is not a form: " + c0.D.Kind
+			return
+		}
+		var sk0 string
+		if sk0, c17SkelErr = check(c0.D); c17SkelErr != "" {
+			return
+		}
+		c17EmptyOf[c17PostSkel] = sk0
 		e2 := env.Static(env.Opts{})
 		d := stdSP(0)
 		d.SLO = []spsim.SLO{{Binding: spsim.BindPost, Location: "https://neutral.example/slo"}}
@@ -92,6 +111,18 @@ func c17Skeletons() {
 			return
 		}
 		c17LogSkel, c17SkelErr = check(c2.D)
+		if c17SkelErr != "" {
+			return
+		}
+		s0 := ssoSend{Path: env.PathSLO, Binding: "post", XML: conformantLogout(rng, d).XML(rng)}
+		c3, _ := s0.do(e2)
+		if c3.D.Kind != "form" {
+			c17SkelErr = "neutral logout rendering without RelayState is not a form: " + c3.D.Kind
+			return
+		}
+		if sk0, c17SkelErr = check(c3.D); c17SkelErr == "" {
+			c17EmptyOf[c17LogSkel] = sk0
+		}
 	})
 }
 
@@ -181,6 +212,11 @@ func c17Judge(r *core.Run, wl string, idx int, class, skel string, d *reply.Deco
 		r.Violate(core.Violation{Clause: clause, Class: class, Reason: reason, Workload: wl, Index: idx, Case: desc, Observed: call.Describe()})
 	}
 	r.Count("pages_checked", 1)
+	if wantRelay == "" {
+		if s0, ok := c17EmptyOf[skel]; ok {
+			skel = s0
+		}
+	}
 	if got := reply.Skeleton(d.Tokens, c17Dynamic); got != skel {
 		viol("skeleton_changed", fmt.Sprintf("page structure differs from the neutral rendering: %s", clipS(diffAt(skel, got), 400)))
 		return
@@ -206,6 +242,9 @@ func c17Judge(r *core.Run, wl string, idx int, class, skel string, d *reply.Deco
 				nM++
 			}
 		}
+	}
+	if nR == 0 && wantRelay == "" {
+		nR = 1 // no field for no RelayState (the structure was compared with the neutral page without RelayState)
 	}
 	if nA != 1 || nR != 1 || nM != 1 {
 		viol("field_count", fmt.Sprintf("%d forms, %d RelayState fields, %d SAMLResponse fields", nA, nR, nM))
